@@ -1,6 +1,6 @@
-CONSTANTS Stride2 = 3
-  Stride3 = 2003
-  TruncStride = 71
+CONSTANTS Stride2 = 2
+  Stride3 = 1201
+  TruncStride = 47
 INIT Init
 NEXT Next
 INVARIANTS Out AnchorsAreTokenPositions
